@@ -422,6 +422,10 @@ func (s *Selection) SelectAShellWord() (bpos, epos int) {
 		}
 
 		s.cursor.Move(s.line.Backward(s.line.TokenizeSpace, s.cursor.Pos()))
+		if s.cursor.Pos() >= mark {
+			break
+		}
+
 		mark = s.cursor.Pos()
 	}
 
@@ -436,6 +440,10 @@ func (s *Selection) SelectAShellWord() (bpos, epos int) {
 		}
 
 		s.cursor.Move(s.line.ForwardEnd(s.line.TokenizeSpace, cpos))
+		if s.cursor.Pos() <= cpos {
+			break
+		}
+
 		cpos = s.cursor.Pos()
 	}
 
